@@ -15,6 +15,7 @@ global size_of usize == 8;
 //@@ trusted read_primitive_bytes_or_else takes its fallback as a generic FnOnce: it is instantiated at its two call sites (op = read_described_bytes at top level, op = |_| Err(InvalidFormatCode) below a descriptor) as two functions (R28)
 //@@ trusted fewer than 2^64 bytes pass through a reader (consumed counters); usize is 64 bits
 
+macro_rules! opaque_err { () => { verus!{ #[verifier::external_body] pub struct FromUtf8Error { _p: u8 } } } }
 pub struct IoError { pub k: u8 }
 #[verifier::external_body]
 pub fn eof_error() -> (r: IoError) { unimplemented!() }
@@ -23,9 +24,10 @@ pub fn opt_copied(o: Option<&u8>) -> (r: Option<u8>) ensures r == (match o { Som
 pub assume_specification<T, E, U, F: FnOnce(T) -> Result<U, E>>[ Result::<T, E>::and_then ](r: Result<T, E>, f: F) -> (o: Result<U, E>)
     requires r is Ok ==> f.requires((r->Ok_0,)),
     ensures (match r { Ok(v) => f.ensures((v,), o), Err(e) => o == Err::<U, E>(e) });
-pub uninterp spec fn sp_be32(b: Seq<u8>) -> u32;
+/// u32::from_be_bytes
+pub open spec fn sp_be32(b: Seq<u8>) -> u32 { ((b[0] as u32) << 24 | (b[1] as u32) << 16 | (b[2] as u32) << 8 | (b[3] as u32)) as u32 }
 #[verifier::external_body]
-pub fn be32(b: [u8; 4]) -> (r: u32) ensures r == sp_be32(b@) { u32::from_be_bytes(b) }
+pub fn from_be32(b: [u8; 4]) -> (r: u32) ensures r == sp_be32(b@) { u32::from_be_bytes(b) }
 
 /// how far ahead of the input an allocation request may run
 pub const READ_BYTES_CHUNK: usize = 65536;
@@ -55,6 +57,8 @@ pub trait Read: Sized {
     spec fn unread(&self) -> Seq<u8>;
     spec fn consumed(&self) -> nat;
     spec fn wf(&self) -> bool;
+    /// the source never fails while it still has the bytes asked for (true of a slice; of a stream only if it has no I/O errors)
+    spec fn reliable(&self) -> bool;
 
 //@@ decl name=Read::peek sig=`fn peek(&mut self) -> (r: Option<u8>)`
 //@@ spec
@@ -63,6 +67,7 @@ pub trait Read: Sized {
             final(self).wf(),
             final(self).unread() =~= old(self).unread() && final(self).consumed() == old(self).consumed(),   // [C20.reader.peek-does-not-consume] peeking leaves every byte where it was
             r is Some ==> old(self).unread().len() > 0 && r->Some_0 == old(self).unread()[0],                 // [C20.reader.peek-value]
+            final(self).reliable() == old(self).reliable(), old(self).reliable() && old(self).unread().len() > 0 ==> r is Some,   // [C05.reader.available-bytes-are-delivered]
 //@@ end
 
 //@@ decl name=Read::bytes_consumed sig=`fn bytes_consumed(&self) -> (r: usize)`
@@ -82,6 +87,7 @@ pub trait Read: Sized {
                 Ok(None) => old(self).unread().len() == 0 && final(self).unread() == old(self).unread() && final(self).consumed() == old(self).consumed(),
                 Err(_) => final(self).unread() == old(self).unread() && final(self).consumed() == old(self).consumed(),
             }),
+            final(self).reliable() == old(self).reliable(), old(self).reliable() && old(self).unread().len() > 0 ==> r is Ok && r->Ok_0 is Some,   // [C05.reader.available-bytes-are-delivered]
 //@@ end
 
 //@@ fn file=serde_amqp/src/read/mod.rs impl=`~Read<'de>:private::Sealed` name=read_const_bytes
@@ -92,6 +98,7 @@ pub trait Read: Sized {
             final(self).wf(),
             r is Ok ==> N <= old(self).unread().len() && r->Ok_0@ =~= old(self).unread().subrange(0, N as int) && final(self).unread() =~= old(self).unread().skip(N as int)
                 && final(self).consumed() == old(self).consumed() + N,                                       // [C20.reader.read-exact]
+            final(self).reliable() == old(self).reliable(), old(self).reliable() && N <= old(self).unread().len() ==> r is Ok,   // [C05.reader.available-bytes-are-delivered]
 //@@ end
 
 //@@ decl name=Read::peek_bytes sig=`fn peek_bytes(&mut self, n: usize) -> (r: Result<Option<&[u8]>, IoError>)`
@@ -104,6 +111,7 @@ pub trait Read: Sized {
                 Ok(None) => old(self).unread().len() < n,
                 Err(_) => true,
             }),
+            final(self).reliable() == old(self).reliable(), old(self).reliable() && n <= old(self).unread().len() ==> r is Ok && r->Ok_0 is Some,   // [C05.reader.available-bytes-are-delivered]
             r is Ok ==> final(self).unread() =~= old(self).unread() && final(self).consumed() == old(self).consumed(),   // [C20.reader.peek-does-not-consume] whatever follows the peeked bytes is still there for the next reader of the stream
 //@@ end
 
@@ -120,6 +128,7 @@ pub trait Read: Sized {
             r is Ok ==> n <= old(self).unread().len() && r->Ok_0@ =~= old(self).unread().subrange(0, n as int) && final(self).unread() =~= old(self).unread().skip(n as int)
                 && final(self).consumed() == old(self).consumed() + n,                                       // [C20.reader.read-exact] read_bytes(n) returns exactly the next n bytes and consumes exactly them
             r is Err ==> final(self).unread().len() <= old(self).unread().len(),                             // [C04.reader.error-loses-only-input]
+            final(self).reliable() == old(self).reliable(), old(self).reliable() && n <= old(self).unread().len() ==> r is Ok,   // [C05.reader.available-bytes-are-delivered]
 //@@ loop 0 optional
             invariant
                 self.wf(), buf@.len() <= n,
@@ -128,6 +137,7 @@ pub trait Read: Sized {
                 self.unread() =~= old(self).unread().skip(buf@.len() as int),
                 self.consumed() == old(self).consumed() + buf@.len(),
                 old(self).consumed() + old(self).unread().len() < usize::MAX,
+                self.reliable() == old(self).reliable(),
 //@@ end
 
 //@@ decl name=Read::read_exact sig=`fn read_exact(&mut self, buf: &mut [u8]) -> (r: Result<(), IoError>)`
@@ -140,6 +150,7 @@ pub trait Read: Sized {
                 && final(self).unread() =~= old(self).unread().skip(old(buf)@.len() as int)
                 && final(self).consumed() == old(self).consumed() + old(buf)@.len(),                         // [C20.reader.read-exact] read_exact fills the buffer with exactly the next |buf| unread bytes and consumes exactly them
             r is Err ==> is_suffix(final(self).unread(), old(self).unread()) && final(self).consumed() + final(self).unread().len() <= old(self).consumed() + old(self).unread().len(),   // [C04.reader.error-loses-only-input] a failed read may drop input but never invents any
+            final(self).reliable() == old(self).reliable(), old(self).reliable() && old(buf)@.len() <= old(self).unread().len() ==> r is Ok,   // [C05.reader.available-bytes-are-delivered]
 //@@ end
 
     /// `self.read_exact(&mut buf[start..])`: read_exact into the tail of a vector, the head stays as it is (stand-in in both impls)
@@ -149,7 +160,8 @@ pub trait Read: Sized {
             final(self).wf(), final(buf)@.len() == old(buf)@.len(), forall|i: int| 0 <= i < start ==> final(buf)@[i] == old(buf)@[i],
             r is Ok ==> old(buf)@.len() - start <= old(self).unread().len() && (forall|i: int| start <= i < old(buf)@.len() ==> final(buf)@[i] == old(self).unread()[i - start])
                 && final(self).unread() =~= old(self).unread().skip(old(buf)@.len() - start) && final(self).consumed() == old(self).consumed() + (old(buf)@.len() - start),
-            r is Err ==> is_suffix(final(self).unread(), old(self).unread());
+            r is Err ==> is_suffix(final(self).unread(), old(self).unread()),
+            final(self).reliable() == old(self).reliable(), old(self).reliable() && old(buf)@.len() - start <= old(self).unread().len() ==> r is Ok;
 }
 
 // ================================================================ SliceReader (read/sliceread.rs)
@@ -186,6 +198,7 @@ impl<'s> Read for SliceReader<'s> {
     open spec fn unread(&self) -> Seq<u8> { self.slice@ }
     open spec fn consumed(&self) -> nat { (self.initial_len - self.slice@.len()) as nat }
     open spec fn wf(&self) -> bool { self.slice@.len() <= self.initial_len }
+    open spec fn reliable(&self) -> bool { true }
     #[verifier::external_body]
     fn read_exact_tail(&mut self, buf: &mut Vec<u8>, start: usize) -> (r: Result<(), IoError>) { unimplemented!() }
 
@@ -207,7 +220,7 @@ impl<'s> Read for SliceReader<'s> {
 
 // ================================================================ IoReader (read/ioread.rs)
 /// the underlying `R: io::Read`
-pub struct Stream { pub rest: Ghost<Seq<u8>> }
+pub struct Stream { pub rest: Ghost<Seq<u8>>, pub reliable: Ghost<bool> }
 impl Stream {
     /// `io::Read::read_exact`
     #[verifier::external_body]
@@ -216,6 +229,7 @@ impl Stream {
             final(buf)@.len() == old(buf)@.len(),
             r is Ok ==> old(buf)@.len() <= old(self).rest@.len() && final(buf)@ == old(self).rest@.subrange(0, old(buf)@.len() as int) && final(self).rest@ == old(self).rest@.skip(old(buf)@.len() as int),
             r is Err ==> is_suffix(final(self).rest@, old(self).rest@) && old(self).rest@.len() - final(self).rest@.len() < old(buf)@.len(),
+            final(self).reliable == old(self).reliable, old(self).reliable@ && old(buf)@.len() <= old(self).rest@.len() ==> r is Ok,
     { unimplemented!() }
     /// `self.reader.read_exact(&mut v[l..])`
     #[verifier::external_body]
@@ -225,6 +239,7 @@ impl Stream {
             final(v)@.len() == old(v)@.len(), forall|i: int| 0 <= i < l ==> final(v)@[i] == old(v)@[i],
             r is Ok ==> old(v)@.len() - l <= old(self).rest@.len() && (forall|i: int| l <= i < old(v)@.len() ==> final(v)@[i] == old(self).rest@[i - l]) && final(self).rest@ == old(self).rest@.skip(old(v)@.len() - l),
             r is Err ==> is_suffix(final(self).rest@, old(self).rest@) && old(self).rest@.len() - final(self).rest@.len() < old(v)@.len() - l,
+            final(self).reliable == old(self).reliable, old(self).reliable@ && old(v)@.len() - l <= old(self).rest@.len() ==> r is Ok,
     { unimplemented!() }
     /// `self.reader.read_exact(&mut buf[l..])` for a caller's slice
     #[verifier::external_body]
@@ -234,6 +249,7 @@ impl Stream {
             final(buf)@.len() == old(buf)@.len(), forall|i: int| 0 <= i < l ==> final(buf)@[i] == old(buf)@[i],
             r is Ok ==> old(buf)@.len() - l <= old(self).rest@.len() && (forall|i: int| l <= i < old(buf)@.len() ==> final(buf)@[i] == old(self).rest@[i - l]) && final(self).rest@ == old(self).rest@.skip(old(buf)@.len() - l),
             r is Err ==> is_suffix(final(self).rest@, old(self).rest@) && old(self).rest@.len() - final(self).rest@.len() < old(buf)@.len() - l,
+            final(self).reliable == old(self).reliable, old(self).reliable@ && old(buf)@.len() - l <= old(self).rest@.len() ==> r is Ok,
     { unimplemented!() }
     /// `(&mut self.reader).take(k).read_to_end(v)`: appends the next min(k, |rest|) bytes; Ok(number appended)
     #[verifier::external_body]
@@ -244,8 +260,10 @@ impl Stream {
                     && final(v)@ == old(v)@ + old(self).rest@.subrange(0, n as int) && final(self).rest@ == old(self).rest@.skip(n as int),
                 Err(_) => exists|n: int| 0 <= n <= old(self).rest@.len() && n <= k && final(v)@ == old(v)@ + old(self).rest@.subrange(0, n) && final(self).rest@ == old(self).rest@.skip(n),
             }),
+            final(self).reliable == old(self).reliable, old(self).reliable@ ==> r is Ok,
     { unimplemented!() }
 }
+
 /// `(buf[..l]).copy_from_slice(&src[..l])`
 #[verifier::external_body]
 pub fn copy_prefix(buf: &mut [u8], src: &Vec<u8>, l: usize)
@@ -270,7 +288,8 @@ impl IoReader {
 //@@ qmark
 //@@ subst `self.buf.resize(len, 0)` => `{ let ghost av = self.buf@.len() + self.reader.rest@.len(); vec_resize_zeroed(&mut self.buf, len, Ghost(av)) }` rule=optional-R9
 //@@ subst `self.reader.read_exact(&mut self.buf[l..])` => `self.reader.read_exact_tail(&mut self.buf, l)` rule=optional-R9
-//@@ subst `let mut limited = io::Read::take(&mut self.reader, missing); let n = io::Read::read_to_end(&mut limited, &mut self.buf)` => `let n = self.reader.take_read_to_end(missing, &mut self.buf)` rule=optional-R9
+//@@ subst `let mut limited = io::Read::take(&mut self.reader, missing);` => `` rule=optional-R9
+//@@ subst `io::Read::read_to_end(&mut limited, &mut self.buf)` => `self.reader.take_read_to_end(missing, &mut self.buf)` rule=optional-R9
 //@@ subst `io::Error::new( io::ErrorKind::UnexpectedEof, "failed to fill whole buffer", )` => `eof_error()` rule=optional-R9
 //@@ spec
     ensures
@@ -278,6 +297,7 @@ impl IoReader {
         r is Ok ==> final(self).buf@.len() >= len && final(self).buf@ + final(self).reader.rest@ =~= old(self).buf@ + old(self).reader.rest@,   // [C20.reader.peek-does-not-consume] filling the peek buffer moves bytes from the stream into the buffer, in order, and loses none
         final(self).buf@.len() <= old(self).buf@.len() + (old(self).reader.rest@.len() - final(self).reader.rest@.len()),     // [C04.ioreader.buffer-holds-only-stream-bytes] success or failure, the peek buffer never grows beyond the bytes the stream actually supplied: a declared length cannot make it allocate
         is_suffix(final(self).reader.rest@, old(self).reader.rest@),
+        final(self).reader.reliable == old(self).reader.reliable, old(self).reader.reliable@ && len <= old(self).buf@.len() + old(self).reader.rest@.len() ==> r is Ok,   // [C05.reader.available-bytes-are-delivered]
 //@@ end
 }
 
@@ -285,6 +305,7 @@ impl Read for IoReader {
     open spec fn unread(&self) -> Seq<u8> { self.buf@ + self.reader.rest@ }
     open spec fn consumed(&self) -> nat { self.consumed as nat }
     open spec fn wf(&self) -> bool { true }
+    open spec fn reliable(&self) -> bool { self.reader.reliable@ }
     #[verifier::external_body]
     fn read_exact_tail(&mut self, buf: &mut Vec<u8>, start: usize) -> (r: Result<(), IoError>) { unimplemented!() }
 
@@ -302,9 +323,9 @@ impl Read for IoReader {
 //@@ fn file=serde_amqp/src/read/ioread.rs impl=`~Read<'de>forIoReader<R>` name=read_exact id=IoReader::read_exact
 //@@ subst `(buf[..l]).copy_from_slice(&self.buf[..l])` => `copy_prefix(buf, &self.buf, l)` rule=R9
 //@@ subst `self.reader.read_exact(&mut buf[l..])` => `self.reader.read_exact_slice_tail(buf, l)` rule=R9
-//@@ subst `self.buf.drain(..l)` => `vec_drain_front(&mut self.buf, l)` rule=R9
+//@@ subst `self.buf.drain(..l)` => `vec_drain_front(&mut self.buf, l)` rule=optional-R9
 //@@ subst `buf.copy_from_slice(&self.buf[..n])` => `copy_prefix(buf, &self.buf, n)` rule=R9
-//@@ subst `self.buf.drain(..n)` => `vec_drain_front(&mut self.buf, n)` rule=R9
+//@@ subst `self.buf.drain(..n)` => `vec_drain_front(&mut self.buf, n)` rule=optional-R9
 //@@ end
 }
 
@@ -312,7 +333,7 @@ pub trait ErrInto<T>: Sized { spec fn conv(self) -> T; fn err_into(self) -> (r: 
 impl ErrInto<IoError> for IoError { open spec fn conv(self) -> IoError { self } fn err_into(self) -> (r: IoError) { let e = self; assert(e == <IoError as ErrInto<IoError>>::conv(self)); e } }
 
 // ================================================================ the byte scanners behind LazyValue / forward_read_byte_buf (read/mod.rs)
-pub enum Error { Io(IoError), InvalidFormatCode, Other }
+pub enum Error { Io(IoError), InvalidFormatCode, InvalidValue, InvalidLength, SequenceLengthMismatch, Other }
 impl Error {
     #[verifier::external_body]
     pub fn unexpected_eof(msg: &str) -> (r: Error) ensures r is Io { unimplemented!() }
@@ -353,12 +374,21 @@ pub open spec fn sp_value_len(u: Seq<u8>) -> Option<int> {
 }
 //@@ type file=serde_amqp/src/format.rs kind=struct name=IsDescribed
 //@@ end
+/// the constructors defined by AMQP 1.0 part 1 section 1.6 (primitive types), plus the described-type marker 0x00
+pub open spec fn amqp_ctor(b: u8) -> bool {
+    b == 0x00 || b == 0x40 || b == 0x56 || b == 0x41 || b == 0x42 || b == 0x50 || b == 0x60 || b == 0x70 || b == 0x52 || b == 0x43
+    || b == 0x80 || b == 0x53 || b == 0x44 || b == 0x51 || b == 0x61 || b == 0x71 || b == 0x54 || b == 0x81 || b == 0x55
+    || b == 0x72 || b == 0x82 || b == 0x74 || b == 0x84 || b == 0x94 || b == 0x73 || b == 0x83 || b == 0x98
+    || b == 0xa0 || b == 0xb0 || b == 0xa1 || b == 0xb1 || b == 0xa3 || b == 0xb3
+    || b == 0x45 || b == 0xc0 || b == 0xd0 || b == 0xc1 || b == 0xd1 || b == 0xe0 || b == 0xf0
+}
 impl EncodingCodes {
 //@@ fn file=serde_amqp/src/format_code.rs impl=`impl TryFrom<u8> for EncodingCodes` name=try_from as=try_from_u8
 //@@ ret Result<EncodingCodes, Error>
 //@@ subst `Error::InvalidFormatCode` => `Error::InvalidFormatCode` rule=optional
 //@@ spec
     ensures r is Ok ==> r->Ok_0 as u8 == value,                                                                 // [C05.format-code.table] a byte is accepted as a format code only if it is that code's value
+        amqp_ctor(value) ==> r is Ok,                                                                          // [C05.format-code.complete] every constructor of the AMQP 1.0 primitive type system (and 0x00) is recognised
 //@@ end
 }
 impl Category {
@@ -399,7 +429,7 @@ pub open spec fn bounded<R: Read>(r: R) -> bool { r.wf() && r.consumed() + r.unr
 //@@ generics <R: Read>
 //@@ nowhere
 //@@ subst `|| Error::unexpected_eof("parse LazyValue")` => `|| -> (o: Error) { Error::unexpected_eof("parse LazyValue") }` rule=R18
-//@@ subst `u32::from_be_bytes(` => `be32(` rule=R9
+//@@ subst `u32::from_be_bytes(` => `from_be32(` rule=R9
 //@@ at `len_bytes_.copy_from_slice(&len_bytes[1..]);` after
             proof { assert(len_bytes_@ =~= old(reader).unread().subrange(1, 5)); }
 //@@ spec
@@ -438,8 +468,9 @@ pub open spec fn bounded<R: Read>(r: R) -> bool { r.wf() && r.consumed() + r.unr
 //@@ qmark
 //@@ generics <R: Read>
 //@@ nowhere
-//@@ subst `read_primitive_bytes_or_else(reader, |_v0| Err(Error::InvalidFormatCode))` => `read_primitive_bytes_or_invalid(reader, Ghost(0))` rule=R28
-//@@ subst `read_primitive_bytes_or_else(reader, |_v1| Err(Error::InvalidFormatCode))` => `read_primitive_bytes_or_invalid(reader, Ghost(0))` rule=R28
+//@@ subst `read_primitive_bytes_or_else(reader, |_v0| Err(Error::InvalidFormatCode))` => `read_primitive_bytes_or_invalid(reader, Ghost(0))` rule=optional-R28
+//@@ subst `read_primitive_bytes_or_else(reader, |_v1| Err(Error::InvalidFormatCode))` => `read_primitive_bytes_or_invalid(reader, Ghost(0))` rule=optional-R28
+//@@ subst `read_primitive_bytes_or_else(reader, read_described_bytes)` => `read_primitive_bytes_or_else(reader, Ghost(0))` rule=optional-R28
 //@@ subst `bytes.append(&mut descriptor_bytes)` => `vec_append(&mut bytes, &mut descriptor_bytes)` rule=R9
 //@@ subst `bytes.append(&mut value_bytes)` => `vec_append(&mut bytes, &mut value_bytes)` rule=R9
 //@@ at `vec_append(&mut bytes, &mut descriptor_bytes);` before
@@ -453,7 +484,8 @@ pub open spec fn bounded<R: Read>(r: R) -> bool { r.wf() && r.consumed() + r.unr
     }
 //@@ spec
     requires bounded(*old(reader)),
-    ensures final(reader).wf(), r is Ok ==> took(*old(reader), *final(reader), r->Ok_0@) && old(reader).unread().len() > 0
+    ensures final(reader).wf(),                                                                                  // [C04.scan.no-recursion] the scanner is not recursive: nesting in the input cannot grow the stack (a call cycle fails Verus' termination check)
+        r is Ok ==> took(*old(reader), *final(reader), r->Ok_0@) && old(reader).unread().len() > 0
         && (old(reader).unread()[0] == 0 ==> sp_value_len(old(reader).unread()) == Some(r->Ok_0@.len() as int)),     // [C20.scan.exact] a described value is scanned as 0x00 + descriptor + value, each exactly; a described descriptor or a doubly described value is refused (no recursion)
 //@@ end
 
@@ -475,6 +507,350 @@ pub open spec fn bounded<R: Read>(r: R) -> bool { r.wf() && r.consumed() + r.unr
 pub fn vec_append(a: &mut Vec<u8>, b: &mut Vec<u8>)
     ensures final(a)@ == old(a)@ + old(b)@, final(b)@.len() == 0,
 { unimplemented!() }
+
+// ================================================================ variable-width primitives of the decoder (de.rs) on top of the Read contract
+opaque_err!();
+/// what a compound header decoder hands to the serde visitor: which access (0 array, 1 list, 2 map), body length in octets, element count
+pub struct Handed { pub kind: int, pub len: int, pub count: int }
+pub struct Deserializer<R> { pub reader: R, pub elem_format_code: Option<EncodingCodes>, pub handed: Ghost<Option<Handed>> }
+pub struct VisitorS { pub g: Ghost<int> }
+#[verifier::external_body]
+pub struct VisitValue { _p: u8 }
+/// `visitor.visit_seq(ArrayAccess::new(de, len, count))`: the visitor (and through it the element decoders) is outside this unit; recorded: what it was given
+#[verifier::external_body]
+pub fn visit_array<R: Read>(visitor: VisitorS, de: &mut Deserializer<R>, len: usize, count: usize) -> (r: Result<VisitValue, Error>)
+    requires old(de).reader.wf(),
+    ensures final(de).reader.wf(), final(de).handed@ == Some(Handed { kind: 0, len: len as int, count: count as int }),
+{ unimplemented!() }
+/// `visitor.visit_seq(ListAccess::new(de, len, count))`
+#[verifier::external_body]
+pub fn visit_list<R: Read>(visitor: VisitorS, de: &mut Deserializer<R>, len: usize, count: usize) -> (r: Result<VisitValue, Error>)
+    requires old(de).reader.wf(),
+    ensures final(de).reader.wf(), final(de).handed@ == Some(Handed { kind: 1, len: len as int, count: count as int }),
+{ unimplemented!() }
+/// `visitor.visit_map(MapAccess::new(de, size, count))`
+#[verifier::external_body]
+pub fn visit_map<R: Read>(visitor: VisitorS, de: &mut Deserializer<R>, len: usize, count: usize) -> (r: Result<VisitValue, Error>)
+    requires old(de).reader.wf(),
+    ensures final(de).reader.wf(), final(de).handed@ == Some(Handed { kind: 2, len: len as int, count: count as int }),
+{ unimplemented!() }
+//@@ type file=serde_amqp/src/util.rs kind=enum name=IsArrayElement
+//@@ end
+//@@ include varspec.rs
+/// String::from_utf8: succeeds exactly on UTF-8, and then the string's octets are the input
+#[verifier::external_body]
+pub fn string_from_utf8(buf: Vec<u8>) -> (r: Result<String, FromUtf8Error>)
+    ensures
+        r is Ok ==> utf8(r->Ok_0@) == buf@,
+        forall|c: Seq<char>| utf8(c) == buf@ ==> r is Ok && r->Ok_0@ == c,
+{ unimplemented!() }
+/// Result<Option<T>, E>::transpose
+pub fn res_transpose(r: Result<Option<u8>, Error>) -> (o: Option<Result<u8, Error>>)
+    ensures o == (match r { Ok(Some(x)) => Some(Ok::<u8, Error>(x)), Ok(None) => None, Err(e) => Some(Err::<u8, Error>(e)) }),
+{ match r { Ok(Some(x)) => Some(Ok(x)), Ok(None) => None, Err(e) => Some(Err(e)) } }
+/// Result<Option<u8>, io::Error>::transpose
+pub fn res_transpose_io(r: Result<Option<u8>, IoError>) -> (o: Option<Result<u8, IoError>>)
+    ensures o == (match r { Ok(Some(x)) => Some(Ok::<u8, IoError>(x)), Ok(None) => None, Err(e) => Some(Err::<u8, IoError>(e)) }),
+{ match r { Ok(Some(x)) => Some(Ok(x)), Ok(None) => None, Err(e) => Some(Err(e)) } }
+/// Option<Result<T, E>>::transpose
+pub fn opt_transpose(o: Option<Result<u8, IoError>>) -> (r: Result<Option<u8>, IoError>)
+    ensures r == (match o { Some(Ok(x)) => Ok::<Option<u8>, IoError>(Some(x)), Some(Err(e)) => Err::<Option<u8>, IoError>(e), None => Ok::<Option<u8>, IoError>(None) }),
+{ match o { Some(Ok(x)) => Ok(Some(x)), Some(Err(e)) => Err(e), None => Ok(None) } }
+
+/// what decoding a variable-width value (8-bit constructor c8, 32-bit constructor c32) off `u` must yield: the data octets, by the AMQP layout
+pub open spec fn var_decoded(c8: u8, c32: u8, u: Seq<u8>) -> Option<Seq<u8>> {
+    if u.len() >= 2 && u[0] == c8 && u.len() >= 2 + u[1] { Some(u.subrange(2, 2 + u[1] as int)) }
+    else if u.len() >= 5 && u[0] == c32 && u.len() >= 5 + sp_be32(u.subrange(1, 5)) { Some(u.subrange(5, 5 + sp_be32(u.subrange(1, 5)) as int)) }
+    else { None }
+}
+pub open spec fn var_consumed(c8: u8, u: Seq<u8>) -> int { if u[0] == c8 { 2 + u[1] as int } else { 5 + sp_be32(u.subrange(1, 5)) as int } }
+
+impl<R: Read> Deserializer<R> {
+//@@ fn file=serde_amqp/src/de.rs impl=`impl<'de, R: Read<'de>> Deserializer<R>` name=read_format_code
+//@@ subst `self.reader .next() .map_err(Into::into) .transpose() .map(|code| code.and_then(|code| code.try_into()))` => `res_transpose(self.reader.next().map_err(|e: IoError| -> (o: Error) ensures o == Error::Io(e) { Error::Io(e) })).map(|code: Result<u8, Error>| -> (o: Result<EncodingCodes, Error>) ensures (match code { Ok(c) => (o is Ok ==> o->Ok_0 as u8 == c) && (amqp_ctor(c) ==> o is Ok), Err(e) => o == Err::<EncodingCodes, Error>(e) }) { match code { Ok(c) => EncodingCodes::try_from_u8(c), Err(e) => Err(e) } })` rule=R19
+//@@ spec
+    requires bounded(old(self).reader),
+    ensures
+        final(self).elem_format_code == old(self).elem_format_code, final(self).handed == old(self).handed, final(self).reader.wf(),
+        (match r {
+            Some(Ok(c)) => old(self).reader.unread().len() > 0 && c as u8 == old(self).reader.unread()[0] && final(self).reader.unread() =~= old(self).reader.unread().skip(1)
+                && final(self).reader.consumed() == old(self).reader.consumed() + 1,                      // [C05.format-code.table]
+            Some(Err(_)) => true,
+            None => old(self).reader.unread().len() == 0 && final(self).reader.unread() =~= old(self).reader.unread(),
+        }),
+        final(self).reader.reliable() == old(self).reader.reliable(),
+        old(self).reader.reliable() && old(self).reader.unread().len() > 0 && amqp_ctor(old(self).reader.unread()[0]) ==> r is Some && r->Some_0 is Ok,   // [C05.format-code.complete]
+//@@ end
+}
+
+impl<R: Read> Deserializer<R> {
+//@@ fn file=serde_amqp/src/de.rs impl=`impl<'de, R: Read<'de>> Deserializer<R>` name=get_elem_code_or_read_format_code
+//@@ spec
+    requires bounded(old(self).reader),
+    ensures
+        final(self).elem_format_code == old(self).elem_format_code, final(self).handed == old(self).handed, final(self).reader.wf(),
+        old(self).elem_format_code is Some ==> r == Some(Ok::<EncodingCodes, Error>(old(self).elem_format_code->Some_0)) && final(self).reader.unread() =~= old(self).reader.unread()
+            && final(self).reader.consumed() == old(self).reader.consumed(),                                 // [C05.array.one-constructor] inside an array the element constructor is the array's, nothing is read for it
+        old(self).elem_format_code is None ==> (match r {
+            Some(Ok(c)) => old(self).reader.unread().len() > 0 && c as u8 == old(self).reader.unread()[0] && final(self).reader.unread() =~= old(self).reader.unread().skip(1)
+                && final(self).reader.consumed() == old(self).reader.consumed() + 1,
+            Some(Err(_)) => true,
+            None => old(self).reader.unread().len() == 0 && final(self).reader.unread() =~= old(self).reader.unread(),
+        }),
+        final(self).reader.reliable() == old(self).reader.reliable(),
+        old(self).elem_format_code is None && old(self).reader.reliable() && old(self).reader.unread().len() > 0 && amqp_ctor(old(self).reader.unread()[0]) ==> r is Some && r->Some_0 is Ok,
+//@@ end
+
+//@@ fn file=serde_amqp/src/de.rs impl=`impl<'de, R: Read<'de>> Deserializer<R>` name=read_small_string
+//@@ blockarms
+//@@ subst `self.reader.next().transpose()` => `res_transpose_io(self.reader.next())` rule=R19
+//@@ subst `e.into()` => `e.err_into()` rule=R16
+//@@ at `Some(string_from_utf8(buf)` before
+            proof { assert(buf@ =~= old(self).reader.unread().subrange(1, 1 + len as int)); }
+//@@ subst `String::from_utf8(buf).map_err(Into::into)` => `string_from_utf8(buf).map_err(|e: FromUtf8Error| -> (o: Error) { Error::Other })` rule=R17
+//@@ spec
+    requires bounded(old(self).reader),
+    ensures
+        final(self).reader.wf(),
+        (match r {
+            Some(Ok(s)) => old(self).reader.unread().len() >= 1 && old(self).reader.unread().len() >= 1 + old(self).reader.unread()[0]
+                && utf8(s@) =~= old(self).reader.unread().subrange(1, 1 + old(self).reader.unread()[0] as int)
+                && final(self).reader.unread() =~= old(self).reader.unread().skip(1 + old(self).reader.unread()[0] as int),   // [C05.str8.decoding] one size octet, then exactly that many octets of UTF-8
+            Some(Err(_)) => true,
+            None => old(self).reader.unread().len() == 0,
+        }),
+        // a well-formed value is accepted
+        old(self).reader.reliable() && old(self).reader.unread().len() >= 1 && old(self).reader.unread().len() >= 1 + old(self).reader.unread()[0]
+            && (exists|c: Seq<char>| utf8(c) == old(self).reader.unread().subrange(1, 1 + old(self).reader.unread()[0] as int)) ==> r is Some && r->Some_0 is Ok,   // [C05.str8.accepted]
+//@@ end
+
+//@@ fn file=serde_amqp/src/de.rs impl=`impl<'de, R: Read<'de>> Deserializer<R>` name=read_string
+//@@ blockarms
+//@@ subst `u32::from_be_bytes(` => `from_be32(` rule=R9
+//@@ subst `e.into()` => `e.err_into()` rule=R16
+//@@ at `Some(string_from_utf8(buf)` before
+            proof { assert(buf@ =~= old(self).reader.unread().subrange(4, 4 + len as int)); assert(len_bytes@ =~= old(self).reader.unread().subrange(0, 4)); }
+//@@ subst `String::from_utf8(buf).map_err(Into::into)` => `string_from_utf8(buf).map_err(|e: FromUtf8Error| -> (o: Error) { Error::Other })` rule=R17
+//@@ spec
+    requires bounded(old(self).reader),
+    ensures
+        final(self).reader.wf(),
+        (match r {
+            Some(Ok(s)) => old(self).reader.unread().len() >= 4 && old(self).reader.unread().len() >= 4 + sp_be32(old(self).reader.unread().subrange(0, 4))
+                && utf8(s@) =~= old(self).reader.unread().subrange(4, 4 + sp_be32(old(self).reader.unread().subrange(0, 4)) as int)
+                && final(self).reader.unread() =~= old(self).reader.unread().skip(4 + sp_be32(old(self).reader.unread().subrange(0, 4)) as int),   // [C05.str32.decoding] four size octets (big-endian), then exactly that many octets of UTF-8
+            Some(Err(_)) => true,
+            None => false,
+        }),
+        old(self).reader.reliable() && old(self).reader.unread().len() >= 4 && old(self).reader.unread().len() >= 4 + sp_be32(old(self).reader.unread().subrange(0, 4))
+            && (exists|c: Seq<char>| utf8(c) == old(self).reader.unread().subrange(4, 4 + sp_be32(old(self).reader.unread().subrange(0, 4)) as int)) ==> r is Some && r->Some_0 is Ok,   // [C05.str32.accepted]
+//@@ end
+}
+
+impl<R: Read> Deserializer<R> {
+//@@ fn file=serde_amqp/src/de.rs impl=`impl<'de, R: Read<'de>> Deserializer<R>` name=parse_string
+//@@ qmark
+//@@ blockarms
+//@@ at `EncodingCodes::Str8 => {` after
+            proof {
+                let u = old(self).reader.unread(); let w = self.reader.unread();
+                if u.len() >= 2 && u.len() >= 2 + u[1] { assert(w.subrange(1, 1 + w[0] as int) =~= u.subrange(2, 2 + u[1] as int)); }
+            }
+//@@ at `EncodingCodes::Str32 => {` after
+            proof {
+                let u = old(self).reader.unread(); let w = self.reader.unread();
+                if u.len() >= 5 { assert(w.subrange(0, 4) =~= u.subrange(1, 5)); if u.len() >= 5 + sp_be32(u.subrange(1, 5)) { assert(w.subrange(4, 4 + sp_be32(w.subrange(0, 4)) as int) =~= u.subrange(5, 5 + sp_be32(u.subrange(1, 5)) as int)); } }
+            }
+//@@ subst `|| Error::unexpected_eof("parse_string")` => `|| -> (o: Error) { Error::unexpected_eof("parse_string") }` rule=R18
+//@@ subst `|| Error::unexpected_eof("Expecting str8")` => `|| -> (o: Error) { Error::unexpected_eof("Expecting str8") }` rule=R18
+//@@ subst `|| Error::unexpected_eof("Expecting str32")` => `|| -> (o: Error) { Error::unexpected_eof("Expecting str32") }` rule=R18
+//@@ spec
+    requires bounded(old(self).reader), old(self).elem_format_code is None,
+    ensures
+        final(self).reader.wf(),
+        r is Ok ==> var_decoded(0xa1, 0xb1, old(self).reader.unread()) == Some(utf8(r->Ok_0@))
+            && final(self).reader.unread() =~= old(self).reader.unread().skip(var_consumed(0xa1, old(self).reader.unread())),   // [C05.str.decoding] str8-utf8 and str32-utf8 are both read by the AMQP layout: constructor, size, exactly that many octets of UTF-8, nothing more consumed
+        old(self).reader.reliable() && var_decoded(0xa1, 0xb1, old(self).reader.unread()) is Some
+            && (exists|c: Seq<char>| utf8(c) == var_decoded(0xa1, 0xb1, old(self).reader.unread())->Some_0) ==> r is Ok,                  // [C05.str.every-variant-accepted] whichever width variant the peer chose
+//@@ end
+
+//@@ fn file=serde_amqp/src/de.rs impl=`impl<'de, R: Read<'de>> Deserializer<R>` name=parse_symbol
+//@@ qmark
+//@@ blockarms
+//@@ at `EncodingCodes::Sym8 => {` after
+            proof {
+                let u = old(self).reader.unread(); let w = self.reader.unread();
+                if u.len() >= 2 && u.len() >= 2 + u[1] { assert(w.subrange(1, 1 + w[0] as int) =~= u.subrange(2, 2 + u[1] as int)); }
+            }
+//@@ at `EncodingCodes::Sym32 => {` after
+            proof {
+                let u = old(self).reader.unread(); let w = self.reader.unread();
+                if u.len() >= 5 { assert(w.subrange(0, 4) =~= u.subrange(1, 5)); if u.len() >= 5 + sp_be32(u.subrange(1, 5)) { assert(w.subrange(4, 4 + sp_be32(w.subrange(0, 4)) as int) =~= u.subrange(5, 5 + sp_be32(u.subrange(1, 5)) as int)); } }
+            }
+//@@ subst `|| Error::unexpected_eof("parse_symbol")` => `|| -> (o: Error) { Error::unexpected_eof("parse_symbol") }` rule=R18
+//@@ subst `|| Error::unexpected_eof("Expecting sym8")` => `|| -> (o: Error) { Error::unexpected_eof("Expecting sym8") }` rule=R18
+//@@ subst `|| Error::unexpected_eof("Expecting sym32")` => `|| -> (o: Error) { Error::unexpected_eof("Expecting sym32") }` rule=R18
+//@@ spec
+    requires bounded(old(self).reader), old(self).elem_format_code is None,
+    ensures
+        final(self).reader.wf(),
+        r is Ok ==> var_decoded(0xa3, 0xb3, old(self).reader.unread()) == Some(utf8(r->Ok_0@))
+            && final(self).reader.unread() =~= old(self).reader.unread().skip(var_consumed(0xa3, old(self).reader.unread())),   // [C05.symbol.decoding]
+        old(self).reader.reliable() && var_decoded(0xa3, 0xb3, old(self).reader.unread()) is Some
+            && (exists|c: Seq<char>| utf8(c) == var_decoded(0xa3, 0xb3, old(self).reader.unread())->Some_0) ==> r is Ok,                  // [C05.symbol.every-variant-accepted]
+//@@ end
+
+//@@ fn file=serde_amqp/src/de.rs impl=`impl<'de, R: Read<'de>> Deserializer<R>` name=parse_binary
+//@@ qmark
+//@@ subst `|| Error::unexpected_eof("parse_byte_buf")` => `|| -> (o: Error) { Error::unexpected_eof("parse_byte_buf") }` rule=R18
+//@@ subst `|| Error::unexpected_eof("Expecting len")` => `|| -> (o: Error) { Error::unexpected_eof("Expecting len") }` rule=R18
+//@@ subst `u32::from_be_bytes(` => `from_be32(` rule=R9
+//@@ subst `.map_err(Into::into)` => `.map_err(|e: IoError| -> (o: Error) { Error::Io(e) })` rule=R17
+//@@ spec
+    requires bounded(old(self).reader), old(self).elem_format_code is None,
+    ensures
+        final(self).reader.wf(),
+        r is Ok ==> var_decoded(0xa0, 0xb0, old(self).reader.unread()) == Some(r->Ok_0@)
+            && final(self).reader.unread() =~= old(self).reader.unread().skip(var_consumed(0xa0, old(self).reader.unread())),   // [C05.binary.decoding]
+        old(self).reader.reliable() && var_decoded(0xa0, 0xb0, old(self).reader.unread()) is Some ==> r is Ok,                              // [C05.binary.every-variant-accepted]
+//@@ end
+}
+
+// ================================================================ compound headers of the decoder (de.rs deserialize_seq / deserialize_tuple / deserialize_map)
+//@@ type file=serde_amqp/src/de.rs kind=const name=MAX_ARRAY_COUNT
+//@@ end
+//@@ type file=serde_amqp/src/format.rs kind=const name=OFFSET_LIST8
+//@@ end
+//@@ type file=serde_amqp/src/format.rs kind=const name=OFFSET_LIST32
+//@@ end
+//@@ type file=serde_amqp/src/format.rs kind=const name=OFFSET_MAP8
+//@@ end
+//@@ type file=serde_amqp/src/format.rs kind=const name=OFFSET_MAP32
+//@@ end
+//@@ type file=serde_amqp/src/format.rs kind=const name=OFFSET_ARRAY8
+//@@ end
+//@@ type file=serde_amqp/src/format.rs kind=const name=OFFSET_ARRAY32
+//@@ end
+
+/// AMQP 1.0 part 1, 1.6.22-1.6.24: compound = constructor, size, count, body; array = constructor, size, count, element constructor, body.
+/// `size` counts everything after the size field. For the header at the front of `u` (constructor included): (body length in octets, count), if well-formed.
+pub open spec fn compound_header(u: Seq<u8>) -> Option<(int, int)> {
+    if u.len() == 0 { None }
+    else if u[0] == 0x45 { Some((0int, 0int)) }
+    else if u[0] == 0xc0 || u[0] == 0xc1 { if u.len() >= 3 && u[1] >= 1 { Some((u[1] as int - 1, u[2] as int)) } else { None } }
+    else if u[0] == 0xd0 || u[0] == 0xd1 { if u.len() >= 9 && sp_be32(u.subrange(1, 5)) >= 4 { Some((sp_be32(u.subrange(1, 5)) as int - 4, sp_be32(u.subrange(5, 9)) as int)) } else { None } }
+    else if u[0] == 0xe0 { if u.len() >= 3 && (u[2] == 0 || u[1] >= 2) { Some((if u[2] == 0 { u[1] as int } else { u[1] as int - 2 }, u[2] as int)) } else { None } }
+    else if u[0] == 0xf0 { if u.len() >= 9 && (sp_be32(u.subrange(5, 9)) == 0 || sp_be32(u.subrange(1, 5)) >= 5) { Some((if sp_be32(u.subrange(5, 9)) == 0 { sp_be32(u.subrange(1, 5)) as int } else { sp_be32(u.subrange(1, 5)) as int - 5 }, sp_be32(u.subrange(5, 9)) as int)) } else { None } }
+    else { None }
+}
+
+impl<R: Read> Deserializer<R> {
+//@@ fn file=serde_amqp/src/de.rs impl=`~de::Deserializer<'de>for&mutDeserializer<R>` name=deserialize_seq
+//@@ selfmut
+//@@ qmark
+//@@ generics
+//@@ nowhere
+//@@ param visitor : VisitorS
+//@@ ret Result<VisitValue, Error>
+//@@ subst `|| Error::unexpected_eof("Expecting format code")` => `|| -> (o: Error) { Error::unexpected_eof("Expecting format code") }` rule=R18
+//@@ subst `|| Error::unexpected_eof("Expecting len")` => `|| -> (o: Error) { Error::unexpected_eof("Expecting len") }` rule=R18
+//@@ subst `|| Error::unexpected_eof("Expecting count")` => `|| -> (o: Error) { Error::unexpected_eof("Expecting count") }` rule=R18
+//@@ subst `u32::from_be_bytes(` => `from_be32(` rule=R9
+//@@ subst `visitor.visit_seq(ArrayAccess::new(self, len, count))` => `visit_array(visitor, self, len, count)` rule=R9
+//@@ subst `visitor.visit_seq(ListAccess::new(self, len, count))` => `visit_list(visitor, self, len, count)` rule=R9
+//@@ spec
+    requires bounded(old(self).reader), old(self).elem_format_code is None, old(self).handed@ is None,
+    ensures
+        final(self).reader.wf(),
+        final(self).handed@ is Some ==> ({
+            let u = old(self).reader.unread();
+            let h = final(self).handed@->Some_0;
+            &&& compound_header(u) == Some((h.len, h.count))                                                     // [C05.compound.header-decoding] list0/list8/list32/array8/array32: the body length and count handed on are the ones the AMQP layout defines (size minus the count field, minus the element constructor for a non-empty array)
+            &&& h.kind == (if u[0] == 0xe0 || u[0] == 0xf0 { 0int } else { 1int })
+            &&& h.count <= 65536 || u[0] == 0xc0                                                                 // [C04.compound.count-capped] 32-bit counts are capped before anything iterates or allocates by them
+            &&& (h.kind == 0 ==> h.count <= h.len + 5)                                                           // [C04.array.count-bounded-by-size] an array cannot announce more elements than its size field covers
+        }),
+//@@ end
+
+//@@ fn file=serde_amqp/src/de.rs impl=`~de::Deserializer<'de>for&mutDeserializer<R>` name=deserialize_tuple
+//@@ selfmut
+//@@ qmark
+//@@ generics
+//@@ nowhere
+//@@ param visitor : VisitorS
+//@@ ret Result<VisitValue, Error>
+//@@ subst `|| Error::unexpected_eof("Expecting format code")` => `|| -> (o: Error) { Error::unexpected_eof("Expecting format code") }` rule=R18
+//@@ subst `|| Error::unexpected_eof("Expecting size")` => `|| -> (o: Error) { Error::unexpected_eof("Expecting size") }` rule=R18
+//@@ subst `|| Error::unexpected_eof("Expecting count")` => `|| -> (o: Error) { Error::unexpected_eof("Expecting count") }` rule=R18
+//@@ subst `u32::from_be_bytes(` => `from_be32(` rule=R9
+//@@ subst `visitor.visit_seq(ListAccess::new(self, size, count))` => `visit_list(visitor, self, size, count)` rule=R9
+//@@ spec
+    requires bounded(old(self).reader), old(self).elem_format_code is None, old(self).handed@ is None,
+    ensures
+        final(self).reader.wf(),
+        final(self).handed@ is Some ==> ({
+            let u = old(self).reader.unread();
+            let h = final(self).handed@->Some_0;
+            &&& (u[0] == 0x45 || u[0] == 0xc0 || u[0] == 0xd0)
+            &&& compound_header(u) == Some((h.len, h.count)) && h.kind == 1                                     // [C05.compound.header-decoding]
+            &&& h.count == len                                                                                   // [C05.tuple.arity] a fixed-arity sequence is accepted only with exactly that many elements
+        }),
+//@@ end
+
+//@@ fn file=serde_amqp/src/de.rs impl=`~de::Deserializer<'de>for&mutDeserializer<R>` name=deserialize_map
+//@@ selfmut
+//@@ qmark
+//@@ generics
+//@@ nowhere
+//@@ param visitor : VisitorS
+//@@ ret Result<VisitValue, Error>
+//@@ subst `|| Error::unexpected_eof("Expecting format code")` => `|| -> (o: Error) { Error::unexpected_eof("Expecting format code") }` rule=R18
+//@@ subst `|| Error::unexpected_eof("Expecting size")` => `|| -> (o: Error) { Error::unexpected_eof("Expecting size") }` rule=R18
+//@@ subst `|| Error::unexpected_eof("Expecting count")` => `|| -> (o: Error) { Error::unexpected_eof("Expecting count") }` rule=R18
+//@@ subst `u32::from_be_bytes(` => `from_be32(` rule=R9
+//@@ subst `visitor.visit_map(MapAccess::new(self, size, count))` => `visit_map(visitor, self, size, count)` rule=R9
+//@@ spec
+    requires bounded(old(self).reader), old(self).elem_format_code is None, old(self).handed@ is None,
+    ensures
+        final(self).reader.wf(),
+        final(self).handed@ is Some ==> ({
+            let u = old(self).reader.unread();
+            let h = final(self).handed@->Some_0;
+            &&& (u[0] == 0xc1 || u[0] == 0xd1)
+            &&& compound_header(u) == Some((h.len, h.count)) && h.kind == 2                                     // [C05.compound.header-decoding] map8/map32
+            &&& h.count <= 65536 || u[0] == 0xc1                                                                 // [C04.compound.count-capped]
+        }),
+//@@ end
+}
+
+// ================================================================ round trip of the variable-width primitives: unit SERSTR's postcondition feeds this unit's
+pub proof fn lemma_be32_inverse(x: u32)
+    ensures sp_be32(be32(x)) == x, be32(x).len() == 4,
+{
+    let b = be32(x);
+    assert(((((x >> 24) as u8) as u32) << 24 | ((((x >> 16) & 0xff) as u8) as u32) << 16 | ((((x >> 8) & 0xff) as u8) as u32) << 8 | (((x & 0xff) as u8) as u32)) == x) by (bit_vector);
+}
+/// [C03.var.round-trip] whatever valid encoding the serializer chose for data octets `d` (SERSTR: var_encoding), followed by anything, the decoder's
+/// layout reading (var_decoded) gives back exactly `d` and stops exactly at the end of the encoding
+pub proof fn lemma_var_round_trip(c8: u8, c32: u8, d: Seq<u8>, enc: Seq<u8>, rest: Seq<u8>)
+    requires var_encoding(c8, c32, d, enc), c8 != c32,
+    ensures
+        var_decoded(c8, c32, enc + rest) == Some(d),
+        var_consumed(c8, enc + rest) == enc.len(),
+        (enc + rest).skip(enc.len() as int) =~= rest,
+{
+    let u = enc + rest;
+    if d.len() <= 255 && enc =~= seq![c8, d.len() as u8] + d {
+        assert(u[0] == c8 && u[1] == d.len() as u8);
+        assert(u.subrange(2, 2 + d.len() as int) =~= d);
+    } else {
+        lemma_be32_inverse(d.len() as u32);
+        assert(enc =~= seq![c32] + be32(d.len() as u32) + d);
+        assert(u[0] == c32);
+        assert(u.subrange(1, 5) =~= be32(d.len() as u32));
+        assert(u.subrange(5, 5 + d.len() as int) =~= d);
+    }
+}
 
 } // verus!
 fn main() {}
